@@ -576,7 +576,7 @@ class HTTPConnectionPool(ConnectionPool, RequestMethods):
         Check if the given ``url`` is a member of the same host as this
         connection pool.
         """
-        if url.startswith("/"):
+        if url.startswith("/") and not url.startswith("//"):
             return True
 
         # TODO: Add optional support for socket.gethostbyname checking.
